@@ -495,6 +495,37 @@ fn check_set(label: &str, set: Vec<J>, perms: Vec<Vec<usize>>, bound: usize, ord
         });
         st.transitions += runs;
     }
+    // the secondary entry point: each input in turn as the main schema, the others as its schemata. The
+    // schemata are parsed as a set of their own first, so they must be resolvable among themselves, and the
+    // whole set must be.
+    if !grey && set.len() >= 2 && set.len() <= 4 {
+        for i in 0..set.len() {
+            let rest: Vec<&J> = set.iter().enumerate().filter(|(k, _)| *k != i).map(|(_, j)| j).collect();
+            let rest_ok = should_succeed(&rest);
+            if matches!(&rest_ok, Err(e) if e.starts_with("GREY")) {
+                continue;
+            }
+            let want_ok = expect_ok.is_ok() && rest_ok.is_ok();
+            let main = set[i].to_string();
+            let others: Vec<String> = rest.iter().map(|j| j.to_string()).collect();
+            st.transitions += 1;
+            let got = guarded(|| Schema::parse_str_with_list(&main, others.iter().map(|s| s.as_str())));
+            let tag = format!("parse_str_with_list(main = input {i})");
+            match got {
+                Err(p) => problems.push(("panic".into(), format!("{tag}: {p}"))),
+                Ok(Err(e)) if want_ok => problems.push(("resolvable-set-rejected".into(), format!("{tag}: {e}"))),
+                Ok(Ok(_)) if !want_ok => problems.push(("unresolvable-or-conflicting-set-accepted".into(), format!("{tag}: accepted although {}", expect_ok.as_ref().err().or(rest_ok.as_ref().err()).cloned().unwrap_or_default()))),
+                Ok(Ok((m, _))) => {
+                    if let (Some(prev), Ok(js)) = (canon.get(&top_name(&set[i])), serde_json::to_string(&m)) {
+                        if *prev != js {
+                            problems.push(("definition-depends-on-order".into(), format!("{tag}: main schema is {js} but parse_list gave {prev}")));
+                        }
+                    }
+                }
+                Ok(Err(_)) => {}
+            }
+        }
+    }
     st.states += 1;
     if expect_ok.is_ok() && problems.is_empty() {
         if let Err(e) = codec_clause(&set, &perms, st) {
